@@ -239,7 +239,7 @@ struct Views {
 }
 
 fn views(xs: &[Option<i64>]) -> Views {
-    let f: Vec<f64> = xs.iter().map(|x| x.map(|k| k as f64 / 4.0).unwrap_or(f64::NAN)).collect();
+    let f: Vec<f64> = xs.iter().enumerate().map(|(i, x)| x.map(|k| k as f64 / 4.0).unwrap_or(vh::nan_at(i))).collect();
     let o: Vec<Option<f64>> = xs.iter().map(|x| x.map(|k| k as f64 / 4.0)).collect();
     let zo: Vec<Option<i32>> = xs.iter().map(|x| x.map(|k| k as i32)).collect();
     let zp: Option<Vec<i32>> = if xs.iter().all(|x| x.is_some()) { Some(xs.iter().map(|x| x.unwrap() as i32).collect()) } else { None };
